@@ -23,15 +23,14 @@ NJ_ASSUME = ['specs/ninja.py (ninja lexing of values and paths) is written from 
 
 TABLE['C02'] = {
     'validate': ['sh'],
-    'modules': ['contracts.ninja', 'contracts.bounded_cmd'],
+    'modules': ['contracts.ninja', 'contracts.bounded_cmd', 'contracts.linking'],
     'level': 'proof',
     'assumptions': SH_ASSUME + NJ_ASSUME,
     'trusted_base': ['PyVC (pyvc/*.py): symbolic interpreter, fold normaliser, induction schemas', 'z3 5.1.0',
                      'specs/sh.py', 'specs/ninja.py'],
-    'not_covered': ['how builtins/*.py assemble the argument lists handed to the writer', 'Writer.write for jbos / BasePath fragments (in progress)',
-                    'write_each/write_shell over argument lists', 'ninja rule/build scoping (command = ${cmd})'],
-    'level_text': 'Deductive proof, for all strings, that the sh-quoting and ninja-escaping kernels (posix.inner_quote_info, wrap_quotes, quote_info; ninja Writer.escape_str, Writer.write for str/shell_literal/literal fragments) make ninja+sh read back exactly the argument; property-level sentences about whole build scripts are not carried',
-    'level_note': 'Trusted: PyVC itself, z3, the spec folds specs/sh.py (validated against dash) and specs/ninja.py (from the manual, not tool-validated), library models of str.replace/re (cross-checked against CPython each run). Not covered: argument-list assembly in builtins, jbos/Path fragments, rule scoping.',
+    'not_covered': ['how builtins/*.py assemble the argument lists handed to the writer', 'ninja rule/build scoping (command = ${cmd})', 'cmd /s /c wrapping of shell lists on Windows', 'NinjaFile._write_rule and NinjaFile.write as a whole'],
+    'level_text': 'Deductive proof, for all strings, that the sh-quoting and ninja-escaping kernels (posix.inner_quote_info, wrap_quotes, quote_info; ninja Writer.escape_str, Writer.write for str / shell_literal / literal / jbos / BasePath fragments) make ninja+sh read back exactly the argument; for argument lists of any length that tween / write_each / write_shell write the blank-joined fragment texts, read back as exactly that many separate words; that _write_variable / _write_build put every part in the escaping context of its position; and that option_list.collect keeps every string in order. Property-level sentences about whole build scripts are not carried.',
+    'level_note': 'Trusted: PyVC itself, z3, the spec folds specs/sh.py (validated against dash) and specs/ninja.py (from the manual, not tool-validated), library models of str.replace/re (cross-checked against CPython each run). Not covered: argument-list assembly in builtins, rule scoping.',
 }
 
 MK_ASSUME = ['specs/make.py (GNU make reading of recipe lines, := values, target/prerequisite words and $(call) arguments) '
@@ -42,16 +41,13 @@ MK_ASSUME = ['specs/make.py (GNU make reading of recipe lines, := values, target
 
 TABLE['C01'] = {
     'validate': ['sh', 'make'],
-    'modules': ['contracts.make', 'contracts.bounded_cmd'],
+    'modules': ['contracts.make', 'contracts.bounded_cmd', 'contracts.linking'],
     'level': 'proof',
     'assumptions': SH_ASSUME + MK_ASSUME,
     'trusted_base': ['PyVC (pyvc/*.py)', 'z3 5.1.0', 'specs/sh.py', 'specs/make.py'],
-    'not_covered': ['how builtins/*.py assemble the argument lists handed to the writer (which option lands in which variable)',
-                    'Writer.write for jbos / BasePath / syntax_string fragments (in progress)',
-                    'write_each / write_shell over argument lists; define/endef bodies; join_lines, local_env, global_env',
-                    'nested test-driver quoting (_build_commands)'],
-    'level_text': 'Deductive proof, for all strings, that the sh-quoting kernel (posix.inner_quote_info, wrap_quotes, quote_info) and the make escaping kernel (Writer.escape_str in all five syntaxes, Writer.write for str/shell_literal/literal fragments) make GNU make + sh read back exactly the argument, in a recipe line and in a := assignment; three genuine defects are recorded as known findings and the failing obligations are re-proved outside their witnesses. Whole-script sentences of the property are not carried.',
-    'level_note': 'Trusted: PyVC, z3, spec folds specs/sh.py and specs/make.py (both validated against the real tools in the thorough tier), library models of str.replace/re (cross-checked each run). Not covered: argument-list assembly in builtins, jbos/Path fragments, list-level writers.',
+    'not_covered': ['how builtins/*.py assemble the argument lists handed to the writer (which option lands in which variable)', 'syntax_string fragments; define/endef bodies (Makefile._write_define); join_lines, local_env, global_env (bounded run with the real sh)', 'nested test-driver quoting (_build_commands)', 'Makefile.write sections other than the include statements'],
+    'level_text': 'Deductive proof, for all strings, that the sh-quoting kernel (posix.inner_quote_info, wrap_quotes, quote_info) and the make escaping kernel (Writer.escape_str in all five syntaxes, Writer.write for str / shell_literal / literal / jbos / BasePath fragments) make GNU make + sh read back exactly the argument, in a recipe line and in a := assignment; for argument lists of any length that tween / write_each / write_shell write the blank-joined fragment texts and that such a text is read back as exactly that many separate words; that _write_variable / _write_rule put every part in the escaping context of its position; and that option_list.collect keeps every string (also the empty one) in order. Three genuine defects are recorded as known findings and the failing obligations are re-proved outside their witnesses. Whole-script sentences of the property are not carried.',
+    'level_note': 'Trusted: PyVC, z3, spec folds specs/sh.py and specs/make.py (both validated against the real tools in the thorough tier), library models of str.replace/re (cross-checked each run). Not covered: argument-list assembly in builtins, syntax_string fragments, define bodies.',
 }
 
 TABLE['C04'] = {
@@ -62,10 +58,8 @@ TABLE['C04'] = {
         'representable Make names: printable ASCII without backslash, * ? [ ] ; = tab, not starting with ~, not ending in blank or & (the property\'s own exclusions; no escaping accepted by GNU make exists for them)',
         'representable Ninja names: no | and no line break'],
     'trusted_base': ['PyVC (pyvc/*.py)', 'z3 5.1.0', 'specs/make.py', 'specs/ninja.py', 'specs/sh.py'],
-    'not_covered': ['that the build step creates / is up to date / notices changes / clean removes the file (tool behaviour given name identity)',
-                    'BasePath realisation ($(srcdir) + suffix) in Writer.write (in progress)', 'find.write_depfile, depfixer (see C07)',
-                    'directory sentinels (Pattern %/.dir)'],
-    'level_text': 'Deductive proof, for all representable names, that make Writer.escape_str/Writer.write (target, dependency, function syntaxes) and ninja Writer.escape_str/Writer.write (output, input) are read back by the tool as exactly the name, and that target-side and dependency-side spellings agree; the comma-in-$(call) defect is a known finding, the %-in-prerequisite defect was repaired (fix commit).',
+    'not_covered': ['that the build step creates / is up to date / notices changes / clean removes the file, beyond the bounded real-make runs (prerequisite names, find depfile)', 'file names with wildcard characters as targets', 'directory sentinels beyond the mkdir recipe (Pattern %/.dir)', 'the ninja tool itself (no binary in the sandbox)'],
+    'level_text': 'Deductive proof, for all representable names, that make Writer.escape_str/Writer.write (target, dependency, function syntaxes; str and BasePath fragments) and ninja Writer.escape_str/Writer.write (output, input) are read back by the tool as exactly the name, that target-side and dependency-side spellings agree, and that rule / build / target-specific-assignment / include statements put each name in the escaping context of its position; bounded runs with the real GNU make for prerequisite names (19 special characters incl. wildcards next to matching siblings) and for the find_files depfile. Known findings: comma in $(call), # in an assignment, single quote inside a quoted automatic variable; the %-in-prerequisite defect was repaired (fix commit).',
     'level_note': 'Trusted: PyVC, z3, specs/make.py (validated against make 4.3), specs/ninja.py (not tool-validated), F2 regex transducer model (cross-checked). Not covered: tool behaviour after name resolution, Path realisation, depfiles.',
 }
 
@@ -156,9 +150,8 @@ TABLE['C20'] = {
         'uuid.uuid4() is an opaque source of fresh values; file I/O of the GUID map = json round trip (bounded run only)',
     ],
     'trusted_base': ['PyVC (pyvc/*.py)', 'z3 5.1.0', 'specs/crt.py'],
-    'not_covered': ['windows._tokenize / split / join deductively (bounded run on the real functions)', 'escape_percent variant', 'ninja cmd /s /c wrapping',
-                    'Solution.__setitem__/dependencies/set_default, project GUID uniqueness when two steps share a name'],
-    'level_text': 'Deductive proof, for all strings without line breaks (any runs of backslashes and quotes), that the MS C runtime rules read windows.quote_info(s) back as exactly the one argument s, and that UuidMap.__getitem__ marks the key seen, returns an existing GUID unchanged and leaves every other key alone. join/split inverse and GUID stability over run sequences are checked bounded on the real code.',
+    'not_covered': ['windows._tokenize / split / join deductively (bounded run on the real functions, including quoted pieces next to verbatim text)', 'escape_percent variant', 'ninja cmd /s /c wrapping (the non-wrapping path of write_shell is proved under C02)', 'Solution.dependencies / set_default deductively (bounded runs over the written .sln)'],
+    'level_text': 'Deductive proof, for all strings without line breaks (any runs of backslashes and quotes), that the MS C runtime rules read windows.quote_info(s) back as exactly the one argument s; that UuidMap.__getitem__ marks the key seen, returns an existing GUID unchanged and leaves every other key alone; and that Project.set_uuid takes the GUID of the full project name. join/split inverse, GUID stability over run sequences and well-formedness of the written .sln (unique GUIDs, dependencies inside the solution) are checked bounded on the real code.',
     'level_note': 'Trusted: PyVC, z3, specs/crt.py (not tool-validated), regex family models (cross-checked). Bounded only: tokenizer/split/join, multi-run GUID persistence.',
 }
 
@@ -177,14 +170,15 @@ TABLE['C12'] = {
 TABLE['C07'] = {
     'modules': ['contracts.depfile', 'contracts.make'],
     'level': 'other',
-    'explanation': 'real compilers and edit histories cannot be put under contract; what is decided: (proof) CcBaseCompiler._call emits -MMD -MF <depfile> whenever a depfile is requested; (bounded, real function) depfixer.emit_deps turns every well-formed gcc depfile text up to the stated bound into exactly one "dep:" rule per dependency, spelled as given -- the mechanism that keeps a build going after a header is deleted',
+    'explanation': 'real compilers and edit histories cannot be put under contract. What is decided: (proof) CcBaseCompiler._call emits -MMD -MF <depfile> whenever a depfile is requested; (proof, for all file names) the -include statements written by Makefile.write name the depfile in TARGET syntax; (bounded, real function) depfixer.emit_deps turns every well-formed gcc depfile text up to the stated bound into exactly one empty rule per dependency, spelled as given with % escaped; (bounded, real cc + GNU make) four generated projects (plain names, blanks, # and %, nested directories) over the edit history build / no-op build / change of a transitively included header / drop-and-delete of the headers / clean / build behave as the property says',
     'assumptions': ['the gcc depfile shape is the grammar stated in contracts/depfile.py::DepfixerReference (written from the gcc documentation of -MMD output)'],
     'trusted_base': ['PyVC (pyvc/*.py)', 'z3 5.1.0'],
-    'not_covered': ['behaviour of the real compilers and of make/ninja on the generated rules', 'optional include of per-object depfiles (make_compile), ninja deps=gcc', 'clean rules', 'all edit histories'],
-    'level_text': 'Partial: one deductive kernel (depfile flags) and a bounded exhaustive run of the depfixer on the real function; the incremental-build behaviour itself is outside this family (needs real toolchains and histories).',
-    'level_note': 'Mostly bounded; only CompilerCall is a proof.',
+    'not_covered': ['other edit histories and project shapes than the four generated ones', 'ninja deps=gcc (no ninja binary in the sandbox)', 'C++ / other compilers than the installed cc'],
+    'level_text': 'Partial: two deductive kernels (depfile flags, include statements), a bounded exhaustive run of the depfixer on the real function, and bounded end-to-end histories with the real compiler and make; the quantifier over all edit histories is outside this family.',
+    'level_note': 'Mostly bounded; CompilerCall and the include statements of Makefile.write are proofs. One genuine defect found by the bounded history run and repaired (% in a header name).',
 }
 TABLE['C04']['modules'].append('contracts.depfile')
+TABLE['C04']['modules'].append('contracts.regen')
 
 TABLE['C19'] = {
     'modules': ['contracts.scripts'],
@@ -200,33 +194,33 @@ TABLE['C19'] = {
 TABLE['C08'] = {
     'modules': ['contracts.regen', 'contracts.scripts'],
     'level': 'other',
-    'explanation': 'history property (edits interleaved with regenerations): outside one-call contracts. What is decided: (proof) BasePath.to_json encodes the directory flag as a trailing separator (the only way from_json can recover it); (bounded, real code) to_json/from_json of PathGlob, NameGlob, FileFilter, FindCache (kinds preserved), RegenerateFiles and the cache-file version gate are identities / refusals as required; find() on real trees equals the reference semantics (so the lazily re-checked result is the fresh result). The regenerate rule\'s inputs/outputs, directory-mtime depfile and the skip decision of find_check_cache over edit histories are not covered.',
+    'explanation': 'history property (edits interleaved with regenerations): outside one-call contracts. What is decided: (proof) BasePath.to_json encodes the directory flag as a trailing separator (the only way from_json can recover it); (bounded, real code) to_json/from_json of PathGlob, NameGlob, FileFilter, FindCache (kinds preserved), RegenerateFiles and the cache-file version gate are identities / refusals as required; find() on real trees equals the reference semantics; push_path records scripts in start order; (bounded, real driver + GNU make) on a generated project with two find_files calls, a submodule and an options file, 12 single edits and 10 edit pairs (all ordered pairs in the thorough tier) each followed by the generated regeneration rule leave Makefile, .bfg_find_deps (as a set), .bfg_find_cache and compile_commands.json identical to a fresh configure, and a second make regenerates nothing; (bounded, real GNU make) the depfile written by find.write_depfile makes the output depend on exactly the searched directories, for directory names with Make-special characters, and survives deletion of a directory',
     'assumptions': ['json.dumps/loads round-trips lists, dicts, strings, booleans and None'],
     'trusted_base': ['PyVC (pyvc/*.py)', 'z3 5.1.0'],
-    'not_covered': ['find_check_cache skip decision (mtime comparison, kind-insensitive list equality)', 'regenerate rule inputs/outputs', 'write_depfile / find_dirs', 'convergence over edit histories'],
+    'not_covered': ['edit histories longer than two steps / other project shapes', 'the ninja backend (no ninja binary in the sandbox)', 'toolchain-file edits'],
     'level_text': 'Partial claim, see explanation.',
-    'level_note': 'One proof (to_json shape) + bounded runs; the history quantifier of the property is not reachable by this family.',
+    'level_note': 'One proof (to_json shape) + bounded runs including real regeneration histories; the history quantifier of the property is not reachable by this family. One genuine defect found by the history run and repaired (watched directories not refreshed when lazy regeneration is skipped).',
 }
 
 TABLE['C14'] = {
     'modules': ['contracts.linking'],
     'level': 'other',
-    'explanation': 'linking and running are external. What is decided: (proof) option_list.append appends a string always and an option object exactly when it matches no element already present (first occurrence kept); (bounded, real classes) for every DAG of up to four libraries with up to two forwarded libraries each, the final lib option list contains every reachable library and puts each static library before an occurrence of everything it forwards -- except where a library is reachable along two paths, which is a recorded known finding (confirmed with the real toolchain); local_rpath is $ORIGIN-relative and independent of where the build directory is.',
+    'explanation': 'linking and running are external. What is decided: (proof) option_list.append appends a string always and an option object exactly when it matches no element already present (first occurrence kept); (bounded, real classes) for every DAG of up to four libraries with up to two forwarded libraries each, the final lib option list contains every reachable library and puts each static library before an occurrence of everything it forwards -- except where a library is reachable along two paths, which is a recorded known finding (confirmed with the real toolchain); local_rpath is $ORIGIN-relative and independent of where the build directory is; (bounded, real cc/ar + GNU make + doppel/patchelf) four generated DAGs (static chain forwarding a package, nested shared library, shared library behind a static one, diamond over a shared base) link, run from another directory, run after the build directory was moved, and the installed program runs without the build directory',
     'assumptions': ['static-library link order semantics of ld: a library must precede the libraries that resolve its undefined symbols'],
     'trusted_base': ['PyVC (pyvc/*.py)', 'z3 5.1.0'],
-    'not_covered': ['CcLinker._link_lib/_lib_dir/flags/lib_flags, soname, runtime/linktime dependency bookkeeping', 'shared/dual-use library modes', 'real linking and running, moving the build tree'],
+    'not_covered': ['DAG shapes beyond the generated ones; dual-use and whole-archive libraries; --enable/--disable-shared/static combinations', 'linkers other than the installed GNU ld'],
     'level_text': 'Partial claim, see explanation.',
-    'level_note': 'One small proof + bounded runs on the real kernel classes; one known finding (link order with a shared forwarded dependency).',
+    'level_note': 'One small proof + bounded runs on the real kernel classes and on the real toolchain; one known finding (link order with a shared forwarded dependency).',
 }
 
 TABLE['C15'] = {
     'modules': ['contracts.install'],
     'level': 'exploration',
-    'explanation': 'no function of the install layer was brought under a deductive contract (file_types.clone machinery, getattr-based tables, external doppel/patchelf tools); the check is a bounded runtime contract of installify / InstallOutputs / _uninstall_files on the real classes',
-    'assumptions': ['doppel and patchelf do what their command lines say'],
+    'explanation': 'no function of the install layer was brought under a deductive contract (file_types.clone machinery, getattr-based tables, external doppel/patchelf tools); the check consists of bounded runtime contracts: installify / InstallOutputs / _uninstall_files on the real classes, and the real install and uninstall targets of a generated project run by GNU make with the real doppel and patchelf under six option sets (prefix in place, separate exec-prefix, DESTDIR with a blank, individually set bin/lib/include/man directories with blanks, a prebuilt source-tree library next to / instead of a project library)',
+    'assumptions': ['the installed doppel 0.5.0 and patchelf are the tools a user runs'],
     'trusted_base': [],
-    'not_covered': ['_install_files command lines (doppel onto/into), header directories with include patterns, post-install rpath rewrite', 'the copying tools and the resulting tree', 'DESTDIR handling by the backends (quoting: see C01/C02)'],
-    'level_text': 'Bounded exploration only (labelled): for five file kinds, six names and three directory arguments the real installify/InstallOutputs map each file to DESTDIR + the directory of its kind, add run-time dependencies, refuse external files and conflicting destinations, and uninstall names exactly the installed paths. Nothing is proved for this property.',
+    'not_covered': ['versioned libraries, pkg-config files, Windows layouts', 'the ninja backend (no ninja binary in the sandbox)', 'option sets other than the six generated ones'],
+    'level_text': 'Bounded exploration only (labelled): the real installify/InstallOutputs map each file to DESTDIR + the directory of its kind, add run-time dependencies, refuse external files and conflicting destinations, and uninstall names exactly the installed paths; the real install target puts exactly the declared files under the configured directories, rewrites the search paths of the installed program to installed library directories, the program runs, and uninstall leaves nothing. Nothing is proved for this property.',
     'level_note': 'bounded stand-in only; contract-based proof did not reach this layer (stated in DESIGN.md 8.3)',
     'technique': 'bounded runtime contracts on the real functions (stand-in; no deductive obligations)',
 }
